@@ -587,6 +587,14 @@ func (b *BaseStore) Load(ctx context.Context, amount int) error {
 				return
 			}
 
+			if ctxErr := ctx.Err(); ctxErr != nil {
+				// the fetch was cut short and reports what it got so far as a shorter log: joining it
+				// would leave a hole below this head that no later load fills (the head is then known)
+				span.AddEvent("store-head-loading-aborted")
+				err = fmt.Errorf("loading aborted: %w", ctxErr)
+				return
+			}
+
 			b.recalculateReplicationStatus(h.GetClock().GetTime())
 
 			span.AddEvent("store-head-loaded")
